@@ -337,9 +337,14 @@ def mutators(chk, prog, rule='R5'):
         st.fields[('this', 'mData')] = Obj(T, 'std::vector<bool>')
         n = bits.vec_size(e, st, T)
         st.assume(le(n, (1 << 62)))
+        first_free = not func.classq
         for p in func.params:
             t = btype(p['t'].rstrip('&').strip())
-            if t == 'celma::container::DynamicBitset':
+            if t == 'celma::container::DynamicBitset' and first_free:
+                # binary operator as free function: the left operand plays the role of *this
+                first_free = False
+                st.vars[p['name']] = Obj('this', t)
+            elif t == 'celma::container::DynamicBitset':
                 st.vars[p['name']] = Obj('other', t)
                 st.fields[('other', 'mData')] = Obj(O, 'std::vector<bool>')
                 m = bits.vec_size(e, st, O)
@@ -361,15 +366,25 @@ def mutators(chk, prog, rule='R5'):
             return 'this', [([], n, lambda p: [([], ('not', I(tr, p)))])]
         if short == 'reset' and not ks:
             return 'this', [([], lin(0), lambda p: [])]
+        if short == 'set' and not ks:
+            return 'this', [([], n, lambda p: [([], ('c', 1))])]
+        if short == 'operator[]' and not f.d.get('const'):
+            pos = v[0]
+            return 'this', [([], None, lambda p: [([lt(p, n)], I(tr, p)), ([ge(p, n)], ('c', 0))])]
+        if short == 'operator=' and ks and ks[0].startswith('std::vector<bool') and f.params[0]['t'].endswith('&&'):
+            return 'this', [([], m, lambda p: [([], I(orr, p))])]
         if short == 'resize':
             return 'this', [([], v[0], lambda p: [([lt(p, n)], I(tr, p)), ([ge(p, n)], ('v', v[1]))])]
         if short == 'operator=' and ks and ks[0].startswith('std::vector<bool') and not f.params[0]['t'].endswith('&&'):
             return 'this', [([], m, lambda p: [([], I(orr, p))])]
-        if short in ('operator&=', 'operator|=', 'operator^='):
+        if short in ('operator&=', 'operator|=', 'operator^=') or (
+                not f.classq and short in ('operator&', 'operator|', 'operator^') and len(ks) == 2):
+            # the binary operators (free functions) have the specification of their compound counterparts
             op = {'&': 'and', '|': 'or', '^': 'xor'}[short[8]]
+            who = 'this' if f.classq else 'ret'
             if op == 'and':
-                return 'this', [([], n, lambda p: [([lt(p, m)], ('and', I(tr, p), I(orr, p))), ([ge(p, m)], ('c', 0))])]
-            return 'this', [([ge(n, m)], n, lambda p: [([lt(p, m)], (op, I(tr, p), I(orr, p))), ([ge(p, m)], I(tr, p))]),
+                return who, [([], n, lambda p: [([lt(p, m)], ('and', I(tr, p), I(orr, p))), ([ge(p, m)], ('c', 0))])]
+            return who, [([ge(n, m)], n, lambda p: [([lt(p, m)], (op, I(tr, p), I(orr, p))), ([ge(p, m)], I(tr, p))]),
                             ([lt(n, m)], m, lambda p: [([lt(p, n)], (op, I(tr, p), I(orr, p))),
                                                        ([ge(p, n)], I(orr, p))])]
         if short == 'operator~':
@@ -401,6 +416,8 @@ def mutators(chk, prog, rule='R5'):
         return None
 
     members = [f for f in prog.functions if f.classq == CLS and not f.d.get('ctor') and not f.d.get('dtor')]
+    members += [f for f in prog.functions if not f.classq and f.name.startswith('celma::container::operator') and
+                f.body is not None and any('DynamicBitset' in p['t'] for p in f.params)]
     n_spec = 0
     undecided = []
     for f in sorted(members, key=lambda x: (x.line, x.key)):
